@@ -5,11 +5,12 @@
    Proofs/Errors.v (wrapper algebra), ErrorsRun.v (run loop), ErrorsMsg.v (message path),
    ErrorsOrigin.v (leaf origins), ErrorsE2E.v (end to end, nesting fuel), ErrorsFwd.v (panic
    containment in the graph model), ErrorsFwdStream.v (forwarders on their own), ErrorsGuard.v
-   (self-panicking streams behind forwarders and copies, end to end).
+   (self-panicking streams behind forwarders and copies, end to end), ErrorsKeep.v (what a stream
+   holds is never swallowed).
    Models: Model/Errors.v (error terms, errors.Is / errors.As, the wrappers of compose/error.go,
    the run loop's error paths over a forest of nested graphs, the public paradigms) and
    Model/ErrorsFwd.v (MergeStreamReaders over forwarded sources) — both evaluated by Corr/C13.v. *)
-From Eino Require Import Base.Util Model.Errors Model.ErrorsFwd Proofs.Errors Proofs.ErrorsRun Proofs.ErrorsFwd Proofs.ErrorsMsg Proofs.ErrorsOrigin Proofs.ErrorsE2E Proofs.ErrorsFwdStream Proofs.ErrorsGuard.
+From Eino Require Import Base.Util Model.Errors Model.ErrorsFwd Proofs.Errors Proofs.ErrorsRun Proofs.ErrorsFwd Proofs.ErrorsMsg Proofs.ErrorsOrigin Proofs.ErrorsE2E Proofs.ErrorsFwdStream Proofs.ErrorsGuard Proofs.ErrorsKeep.
 Open Scope string_scope.
 
 (* ------------------------------------------------------------------ the path *)
@@ -484,6 +485,51 @@ Example forwarded_panics_nonvacuous :
    map (fun a => match a with AItem e => as_panic e | AErr e => as_panic e | _ => None end) (answers F PStream false None),
    map (fun a => match a with AErr e => (msg_path e, as_panic e) | _ => ([], None) end) (answers F PInvoke false None))
   = (true, false, false, [Some 2%N; Some 2%N], [(["s"; "a"], Some 2%N); (["q"], Some 1%N)]).
+Proof. vm_compute. reflexivity. Qed.
+
+(* ------------------------------------------------------------------ nothing on a stream is swallowed *)
+
+(* In stream mode, whatever a stream between the nodes holds — an error item, a convert function
+   that panics — is never dropped: a node handed such a stream fails (it read it inside its task)
+   or hands it on, copies and merges keep it.  So a run of ANY graph of any forest (stages not
+   empty) whose input stream holds something never ends cleanly: it fails with a non-empty set of
+   legal errors, is interrupted, or returns a stream that still holds something ... *)
+Theorem stream_content_never_swallowed : forall F d g items canc,
+  forallb nonempty_graph F = true -> nonempty_graph g = true -> items <> [] ->
+  kept (run_graph F true d g items canc).
+Proof. intros F d g items canc HF. apply run_graph_keeps. exact HF. Qed.
+Print Assumptions stream_content_never_swallowed.
+
+(* ... the same from the moment some task hands back a stream that holds something (an error item
+   emitted by a stream-native node, a self-panicking stream), at any nesting depth ... *)
+Theorem produced_item_never_swallowed : forall F d all loop br k st rest items n it c,
+  forallb nonempty_graph F = true ->
+  forallb nonempty_stage all = true -> forallb nonempty_stage (st :: rest) = true ->
+  In n st -> exec_node F true (run_graph F true d) items false n = NOk it c -> it <> [] ->
+  kept (steps F true (run_graph F true d) all loop br k (st :: rest) items false).
+Proof.
+  intros F d all loop br k st rest items n it c HF Hall Hcur Hn Hex Hne.
+  eapply produced_item_kept; eauto. apply run_graph_keeps. exact HF.
+Qed.
+
+(* ... and through the public API: an error item on the input stream of Collect / Transform always
+   comes back to the caller — the call never succeeds cleanly (and it has an answer) *)
+Theorem input_item_not_swallowed : forall F p cb e,
+  (p = PCollect \/ p = PTransform) -> forallb nonempty_graph F = true ->
+  ~ In AOk (answers F p cb (Some e)) /\ answers F p cb (Some e) <> [].
+Proof. exact input_item_not_swallowed_lemma. Qed.
+Print Assumptions input_item_not_swallowed.
+
+Example not_swallowed_nonvacuous :
+  (* the input's error item passes two lazy transformers and a sub-graph of transformers and comes
+     out of Transform as an error item; with a collecting node on the way it is that node's error *)
+  let F := [ mkGraph false [[NLam "t1" FT BOk]; [NSub "s" 1; NLam "t2" FT BOk]] false 0 BrNone;
+             mkGraph true [[NLam "u" FT BOk]] false 0 BrNone ] in
+  let F' := [ mkGraph false [[NLam "t1" FT BOk]; [NLam "c" FC BOk]] false 0 BrNone ] in
+  (forallb nonempty_graph F,
+   map (fun a => match a with AItem e => as_custom 1 e | _ => None end) (answers F PTransform false (Some (Custom 1 4))),
+   map (fun a => match a with AErr e => (msg_path e, as_custom 1 e) | _ => ([], None) end) (answers F' PCollect false (Some (Custom 1 4))))
+  = (true, [Some 4%N; Some 4%N], [(["c"], Some 4%N)]).
 Proof. vm_compute. reflexivity. Qed.
 
 (* a panic that leaves the run of a sub-graph (a panicking branch condition, a panicking stream the
